@@ -10,6 +10,8 @@ COMPONENTS = {
     "surv": "comp_surv",
     "repl": "comp_repl",
     "gen": "comp_gen",
+    "spacing": "comp_spacing",
+    "spnn": "comp_spacing:Spnn",
 }
 
 TRUSTED_BASE = [
@@ -120,5 +122,11 @@ PROPERTIES = {
         "rule": "ask / external evaluation / tell loops of DE, NSDE, GDE3, GDE3MNN, GDE32NN, GDE3P, NSDE-R and the generic GeneticAlgorithm base (SBX or DEX crossover, PM, n_offsprings = or != pop_size) on random bounded problems (1..4 variables, 1..4 objectives, 0..2 constraints with shifted feasibility, grid-rounded objectives for exact ties), population sizes n_parents+1.., every selection / crossover / repair, five crowding metrics, RankAndCrowding / ConstrRankAndCrowding / the shared default survival object, optional PM, optionally after an unrelated run in the same process; one record per generation (2..5 per run): candidates handed to the survival, next population (object identities), optimum, sizes, evaluation counter, F(X) provenance; distinct = hash; non-trivial = an offspring entered the population",
         "explanation": "theorems later_front_has_dominator, rank0_iff_nondominated, argminCv_spec, opt_infeasible, opt_feasible_only, de_opt_single; correspondence: algorithm.opt after every tell() equals the model's setOptimum on the model's next population and fresh ranks",
         "assumptions": ["oracle contracts hold", "NSDE-R: survival.opt is an oracle with contract 'feasible first-front candidates'"],
+    },
+    "C20": {
+        "components": [("spacing", 900, 30000)],
+        "rule": "point sets of 2..30 points, 1..5 objectives (tie-rich grids, continuous at three scales, equally spaced lines, a constant objective, large offsets, injected duplicates), metrics cityblock / euclidean / chebyshev, all ideal / nadir / pf settings (none, both bounds, pf only, pf = F, pf + one bound, all three), each case also evaluated on a permuted, a translated and a scaled copy; distinct = hash; non-trivial = spacing > 0",
+        "explanation": "theorems spacing_nonneg, spacing_zero_of_equal, spacingSq_perm, cityblock/chebyshev/sqEuclid_translate, cityblock_scale, spacingSq_scale, spacing_scale, secondSmallest_mem, normCoord_eq; correspondence: the value equals the Lean model at Float within 1e-9 relative (pdist / mean summation order is not replicated bit for bit); the oracle is a direct implementation of the definition",
+        "assumptions": ["sqrt is an abstract function with sqrt 0 = 0, non-negativity and sqrt(c*c*x) = c*sqrt x", "scipy pdist computes the named metrics"],
     },
 }
